@@ -623,6 +623,38 @@ func (e *secretExec) step(s *SecStep) {
 				o.Violate("C19", "bad-key-accepted", "GetEncrypted accepted a key that is "+name, map[string]string{"key": name})
 			}
 		}
+		// the same through the option helpers of the plan's token type: the constructor must refuse
+		tryOpt := func(name string, k []byte) {
+			iss, other := e.c.ent(0), e.c.ent(1)
+			var err error
+			if guard(o, "constructor with an encrypted-metadata option (bad key)", func() {
+				if p.Kind == "inv" {
+					opt := invocation.WithEncryptedMetaBytes("k", p.Plain, k)
+					if p.AsStr {
+						opt = invocation.WithEncryptedMetaString("k", string(p.Plain), k)
+					}
+					_, err = invocation.New(iss.id, other.id, command.MustParse("/a"), nil, opt)
+				} else {
+					opt := delegation.WithEncryptedMetaBytes("k", p.Plain, k)
+					if p.AsStr {
+						opt = delegation.WithEncryptedMetaString("k", string(p.Plain), k)
+					}
+					_, err = delegation.Root(iss.id, other.id, command.MustParse("/a"), nil, opt)
+				}
+			}) {
+				return
+			}
+			e.sig("badkey-option:"+name, fmt.Sprint(err != nil))
+			if err == nil {
+				o.Violate("C19", "bad-key-accepted", "a token constructor accepted an encrypted-metadata option whose key is "+name, map[string]string{"key": name, "where": "option"})
+			}
+		}
+		for _, bk := range []struct {
+			name string
+			k    []byte
+		}{{"nil", nil}, {"all-zero", make([]byte, 32)}, {"empty", []byte{}}, {"31 bytes long", labelNonce("bad", 31)}, {"33 bytes long", labelNonce("bad", 33)}, {"64 bytes long", labelNonce("bad", 64)}} {
+			tryOpt(bk.name, bk.k)
+		}
 		try("nil", nil)
 		try("all-zero", make([]byte, 32))
 		for n := 0; n <= 64; n++ {
@@ -684,9 +716,7 @@ func genSecret(r *Rand, g GenCfg) Plan {
 	for i := 0; i < 4; i++ {
 		p.Steps = append(p.Steps, SecStep{Op: "otherkey", N: r.Intn(256)})
 	}
-	if r.Chance(0.3) {
-		p.Steps = append(p.Steps, SecStep{Op: "badkey"})
-	}
+	p.Steps = append(p.Steps, SecStep{Op: "badkey"})
 	return p
 }
 
